@@ -16,7 +16,7 @@ def dictTreeList : List (Key × Node) → Bool
   | (_, c) :: rest => dictTree c && dictTreeList rest
 end
 
-theorem dictTree_comp {f k cs} (h : dictTree (.comp f k cs) = true) :
+theorem c04_dictTree_comp {f k cs} (h : dictTree (.comp f k cs) = true) :
     k.isDictFam = true ∧ keysNodup cs = true ∧ dictTreeList cs = true := by
   simpa [dictTree, and_assoc] using h
 
@@ -28,8 +28,8 @@ theorem c04_empty_noneKept (cond : Path → Node → Bool) :
       noneKept cond pre n = true
   | _, .leaf .., _, _ => rfl
   | pre, .comp f k cs, hd, he => by
-    obtain ⟨hk, hn, hcs⟩ := dictTree_comp hd
-    rw [filterNode_dict_kept cond pre f k cs hk hn] at he
+    obtain ⟨hk, hn, hcs⟩ := c04_dictTree_comp hd
+    rw [c04_filterNode_dict_kept cond pre f k cs hk hn] at he
     simp only [noneKept]
     exact c04_keptNil_noneKept cond pre cs hcs he
 theorem c04_keptNil_noneKept (cond : Path → Node → Bool) :
@@ -59,19 +59,19 @@ end
 theorem c04_filter_empty_iff (cond : Path → Node → Bool) (pre : Path) (n : Node)
     (hd : dictTree n = true) (hw : wfKeys n = true) :
     (filterNode cond pre n).1.children = [] ↔ noneKept cond pre n = true :=
-  ⟨c04_empty_noneKept cond pre n hd, filterNode_noneKept cond pre n hw⟩
+  ⟨c04_empty_noneKept cond pre n hd, c04_filterNode_noneKept cond pre n hw⟩
 
 mutual
-theorem wfKeys_of_dictTree : ∀ n : Node, dictTree n = true → wfKeys n = true
+theorem c04_wfKeys_of_dictTree : ∀ n : Node, dictTree n = true → wfKeys n = true
   | .leaf .., _ => rfl
   | .comp f k cs, h => by
-    obtain ⟨hk, _, hcs⟩ := dictTree_comp h
-    simp [wfKeys, hk, wfKeysList_of_dictTreeList cs hcs]
-theorem wfKeysList_of_dictTreeList : ∀ cs : List (Key × Node), dictTreeList cs = true → wfKeysList cs = true
+    obtain ⟨hk, _, hcs⟩ := c04_dictTree_comp h
+    simp [wfKeys, hk, c04_wfKeysList_of_dictTreeList cs hcs]
+theorem c04_wfKeysList_of_dictTreeList : ∀ cs : List (Key × Node), dictTreeList cs = true → wfKeysList cs = true
   | [], _ => rfl
   | (_, c) :: rest, h => by
     have h' : dictTree c = true ∧ dictTreeList rest = true := by simpa [dictTreeList] using h
-    simp [wfKeysList, wfKeys_of_dictTree c h'.1, wfKeysList_of_dictTreeList rest h'.2]
+    simp [wfKeysList, c04_wfKeys_of_dictTree c h'.1, c04_wfKeysList_of_dictTreeList rest h'.2]
 end
 
 /-! ### "nowhere below" in terms of `get_node` -/
@@ -113,7 +113,7 @@ theorem c04_noneKept_getNode (cond : Path → Node → Bool) :
         have := c04_noneKept_getNode cond (k2 :: r2) (pre ++ [key]) c m h2 (by simp) hg
         simpa [List.append_assoc] using this
 
-theorem alookup_mem_akeys {α : Type} {key : Key} {l : List (Key × α)} {c : α}
+theorem c04_alookup_mem_akeys {α : Type} {key : Key} {l : List (Key × α)} {c : α}
     (h : alookup key l = some c) : key ∈ akeys l :=
   (ahas_iff_mem key l).1 (by simp [ahas, h])
 
@@ -125,7 +125,7 @@ theorem c04_getNode_noneKept (cond : Path → Node → Bool) :
       noneKept cond pre n = true
   | _, .leaf .., _, _ => rfl
   | pre, .comp f k cs, hd, h => by
-    obtain ⟨_, hn, hcs⟩ := dictTree_comp hd
+    obtain ⟨_, hn, hcs⟩ := c04_dictTree_comp hd
     simp only [noneKept]
     apply c04_getNode_noneKeptList cond pre cs hcs hn
     intro key c q m hl hg
@@ -149,7 +149,7 @@ theorem c04_getNode_noneKeptList (cond : Path → Node → Bool) :
     have h3 : noneKeptList cond pre rest = true := by
       apply c04_getNode_noneKeptList cond pre rest hd'.2 hn'.2
       intro key c q m hlr hg
-      have hne : ¬ name = key := fun e => hn'.1 (e ▸ alookup_mem_akeys hlr)
+      have hne : ¬ name = key := fun e => hn'.1 (e ▸ c04_alookup_mem_akeys hlr)
       exact h key c q m (by simp only [alookup, hne, if_false]; exact hlr) hg
     simp [noneKeptList, h1, h2, h3]
 end
@@ -160,7 +160,7 @@ theorem c04_filter_nonempty_iff (cond : Path → Node → Bool) (pre : Path) (n 
     (hd : dictTree n = true) :
     (filterNode cond pre n).1.children ≠ [] ↔
       ∃ q m, q ≠ [] ∧ getNode n q = some m ∧ cond (pre ++ q) m = true := by
-  rw [Ne, c04_filter_empty_iff cond pre n hd (wfKeys_of_dictTree n hd)]
+  rw [Ne, c04_filter_empty_iff cond pre n hd (c04_wfKeys_of_dictTree n hd)]
   constructor
   · intro hne
     apply Classical.byContradiction
